@@ -115,8 +115,12 @@ type LabelOpt struct {
 	Min, Max int
 	Names    int
 	Val      StrOpt
-	Long     bool     // allow values longer than 100 bytes
-	Reserved []string // sanitised names that must not be produced
+	Long     bool // allow values longer than 100 bytes
+	// LongNames stretches about one name in six to 60..400 bytes (lengths around 64, 100,
+	// 128 and 255 are favoured). Sanitisation caps values, not names (unmarshal.go
+	// sanitizeLabels), so the whole name is part of the series identity.
+	LongNames bool
+	Reserved  []string // sanitised names that must not be produced
 	// Exclude lists bytes a name cannot carry on the wire.
 	NameExclude string
 	// Sanitizer is the name sanitisation of the target protocol (default SanitizeName).
@@ -186,6 +190,9 @@ func LabelSet(rt *rapid.T, o LabelOpt) []Label {
 		if name == "" {
 			continue
 		}
+		if o.LongNames && rapid.IntRange(0, 5).Draw(rt, "long-name") == 3 {
+			name = StretchName(name, rapid.SampledFrom(longNameLens).Draw(rt, "name-len")+rapid.IntRange(-3, 9).Draw(rt, "name-len-d"))
+		}
 		sn := SanitizeName(name)
 		if o.Sanitizer != nil {
 			sn = o.Sanitizer(name)
@@ -224,13 +231,114 @@ func LabelSet(rt *rapid.T, o LabelOpt) []Label {
 	return out
 }
 
+var longNameLens = []int{64, 100, 128, 255, 70, 140, 300, 400}
+
+const namePad = "abcdefghij_0123456789_klmnopqrstuvwxyz_ABCDEFGHIJKLMNOPQRSTUVWXYZ_"
+
+// StretchName pads a name with plain label bytes (unchanged by sanitisation, valid in
+// every name alphabet) up to n bytes.
+func StretchName(name string, n int) string {
+	var sb strings.Builder
+	sb.WriteString(name)
+	for i := 0; sb.Len() < n; i++ {
+		sb.WriteByte(namePad[i%len(namePad)])
+	}
+	return sb.String()
+}
+
+// capPositions are the byte offsets at which sloppy hashing or copying tends to stop.
+var capPositions = []int{63, 64, 99, 100, 127, 128, 254, 255}
+
+func otherPlain(c byte) byte {
+	if c == 'Q' {
+		return 'R'
+	}
+	return 'Q'
+}
+
+// tailNeighbours are the neighbours aimed at length limits: a long name changed only in its
+// last byte or at / right after one of capPositions, a long name with one byte appended or
+// removed; a value changed just before the 100-byte cap of sanitizeLabels, and a value of
+// exactly 100 bytes against the longer one with the same first 100 bytes (the latter is
+// stored with "..." appended, so the sets differ).
+func tailNeighbours(ls []Label) [][]Label {
+	var out [][]Label
+	cp := func() []Label { return append([]Label(nil), ls...) }
+	for i, l := range ls {
+		n, v := string(l.Name), string(l.Value)
+		if len(n) > 32 {
+			b := []byte(n)
+			b[len(b)-1] = otherPlain(b[len(b)-1])
+			c := cp()
+			c[i].Name = evid.Str(b)
+			out = append(out, c)
+			for k := len(capPositions) - 1; k >= 0; k-- {
+				if pos := capPositions[k]; pos < len(n)-1 {
+					b := []byte(n)
+					b[pos] = otherPlain(b[pos])
+					c := cp()
+					c[i].Name = evid.Str(b)
+					out = append(out, c)
+					break // the highest position inside the name: the longest common prefix
+				}
+			}
+			c2 := cp()
+			c2[i].Name = evid.Str(n + "Q")
+			out = append(out, c2)
+			c3 := cp()
+			c3[i].Name = evid.Str(n[:len(n)-1])
+			out = append(out, c3)
+		}
+		if len(v) >= 100 {
+			b := []byte(v)
+			b[99] = otherPlain(b[99])
+			c := cp()
+			c[i].Value = evid.Str(b)
+			out = append(out, c)
+			if len(v) > 100 {
+				c2 := cp()
+				c2[i].Value = evid.Str(v[:100])
+				out = append(out, c2)
+			}
+		}
+	}
+	return out
+}
+
+// SameSanitized returns spellings of ls that differ from it only behind the 100-byte cap of
+// a value: by the documented sanitisation (value cut to 100 bytes plus "...") they are the
+// same stored label set and must share its fingerprint.
+func SameSanitized(ls []Label) [][]Label {
+	var out [][]Label
+	base := CanonKey(Sanitized(ls))
+	for i, l := range ls {
+		v := string(l.Value)
+		if len(v) <= 100 {
+			continue
+		}
+		for _, alt := range []string{v + "Z", v[:100] + "#another-tail", v[:100] + "..."} {
+			if alt == v {
+				continue
+			}
+			c := append([]Label(nil), ls...)
+			c[i].Value = evid.Str(alt)
+			if CanonKey(Sanitized(c)) == base {
+				out = append(out, c)
+			}
+		}
+	}
+	return out
+}
+
 // Neighbours returns label sets that differ from ls in at least one sanitised pair but are
 // built to collide under sloppy hashing: a character moved across the name/value
 // boundary, two values swapped, an empty-valued label added, a label dropped, name and
-// value exchanged, two pairs merged into one. Sets whose sanitised form equals that of ls
+// value exchanged, two pairs merged into one, and (first in the list) the length-limit
+// neighbours of tailNeighbours. Sets whose sanitised form equals that of ls
 // (or whose names collide after sanitisation) are filtered out.
 func Neighbours(ls []Label) [][]Label {
-	var cands [][]Label
+	// the length-limit neighbours come first: callers that only take the first few keep them
+	cands := tailNeighbours(ls)
 	cp := func() []Label { return append([]Label(nil), ls...) }
 	for i, l := range ls {
 		n, v := string(l.Name), string(l.Value)
